@@ -222,6 +222,10 @@ func backSlice(v ssa.Value) map[ssa.Value]bool {
 						visit(y.Value)
 					}
 				case ssa.CallInstruction:
+					// the standard search / comparison functions read their arguments only
+					if g := y.Common().StaticCallee(); g != nil && readOnlyStd(g) {
+						continue
+					}
 					// a module callee that only reads the object (a membership test on a set) puts nothing into it
 					if g := y.Common().StaticCallee(); g != nil && inModule(g) && g.Blocks != nil {
 						fills := false
@@ -247,6 +251,32 @@ func backSlice(v ssa.Value) map[ssa.Value]bool {
 	}
 	visit(v)
 	return seen
+}
+
+// readOnlyStd: standard-library functions that only read what they are handed.
+func readOnlyStd(g *ssa.Function) bool {
+	o := g.Origin()
+	if o == nil {
+		o = g
+	}
+	switch pkgPathOf(o) {
+	case "slices":
+		switch o.Name() {
+		case "Contains", "ContainsFunc", "Index", "IndexFunc", "Equal", "EqualFunc", "Compare", "CompareFunc", "Max", "Min", "BinarySearch", "BinarySearchFunc", "IsSorted", "IsSortedFunc":
+			return true
+		}
+	case "strings", "bytes":
+		switch o.Name() {
+		case "Contains", "ContainsRune", "ContainsAny", "Index", "IndexByte", "IndexRune", "LastIndex", "HasPrefix", "HasSuffix", "EqualFold", "Equal", "Compare", "Count":
+			return true
+		}
+	case "maps":
+		switch o.Name() {
+		case "Equal", "EqualFunc":
+			return true
+		}
+	}
+	return false
 }
 
 // mayFill: something may be written into the object v refers to (map update, store through a derived address,
